@@ -6,6 +6,7 @@ The byte-level file structure is checked on the real output by the harness-owned
 (harness/dxfparse.py); these theorems cover the handle/ownership skeleton for all histories.
 -/
 import EzdxfVerif.Lemmas.DocWrite
+import EzdxfVerif.Lemmas.DocOwner
 
 namespace EzdxfVerif.Props.C04
 open EzdxfVerif.Doc
@@ -27,6 +28,12 @@ theorem write_lt_handseed (s : State) (hi : DocInv s) :
     once, each with an entity space), after every operation -/
 theorem step_binv (s : State) (op : Op) (hi : DocInv s) (h : BInv s) : BInv (step s op).1 :=
   Doc.step_BInv s op hi h
+
+/-- every entity written between BLOCK and ENDBLK of a block record is owned by that block record
+    (its owner tag resolves to the BLOCK_RECORD it is written under), in every reachable state -/
+theorem written_under_owner (s : State) (ops : List Op) (h : DocInv s) (ho : OwnerInv s) (hok : HistOk s ops) :
+    ∀ k x, x ∈ liveContent (run s ops) k → ownerOf (run s ops) x = some k :=
+  fun k x hx => Doc.liveContent_owner _ (Doc.owner_inv_reachable s ops h ho hok) k x hx
 
 /-- the three facts above hold for the file written after ANY history of API operations
     (histories may interleave save+reload: `reload` is one of the operations) -/
